@@ -1,16 +1,23 @@
 import GoflowModel.Lemmas.ExprParse
+import GoflowModel.Lemmas.ExprParseShape
+import GoflowModel.Lemmas.PrintNewline
 import GoflowModel.Excellent.Eval
 import GoflowModel.Gen.Grammar
 /-!
 # C11 — Printing and re-parsing an expression preserves its meaning
 
-* `print_parse_core_partial`: for every expression of the operator core in the shape the parser
-  produces (`Core`: all twelve binary operators at every nesting, negation chains, parentheses,
-  references, `true`/`false`/`null` — no bound on size), the printed tokens parse back to the same
-  tree, whatever follows them; hence printing is a fixed point and the value is the same.  It is
-  *partial*: lookups, calls, anonymous functions and text/number literals are outside `Core`; for
-  those the same statement is decided on the implementation by the monitors and by the
-  correspondence of the parser/printer model with the generated parser (all forms).
+* `parse_print_parse`: **for every token list the parser accepts**, printing the tree and parsing
+  the printed tokens gives the same tree with its reference names lowered (what printing does to
+  them), whatever the expression: all twelve operators at every nesting, negation chains,
+  parentheses, dot and index lookups, calls with any parameters, anonymous functions (also as the
+  last operand of an operator), text and number literals — no bound on size.  It is the
+  composition of `parser_shape` (the parser only returns trees of the shape `Shape`) and
+  `print_parse` (the printed tokens of any such tree parse back to it, in any context an
+  expression can stand in: `print_parse_in_context`).  `print_fixed_point`: printing the re-parsed
+  tree gives the same tokens again.  `reparse_same_value`: it evaluates to the same value in every
+  context and every value domain.  The statements are about token lists: that the printed text
+  lexes to those tokens is C12's part (literals) and the correspondence's (names, numbers).
+* `print_parse_core_partial` is the earlier, smaller version (operator core only), kept.
 * `rename_eval`: renaming a context reference and moving its value evaluates to the same value,
   for the whole language and every value domain — references rebound by an anonymous function's
   parameter are left alone (the repaired `ContextRefRename`), which is what makes the statement
@@ -55,6 +62,63 @@ example : Core (.bin .amp (.bin .eq (.bin .add (.bin .exp (.neg (.ref ['a'])) (.
 example : (parse (toks (.bin .sub (.ref ['a']) (.bin .sub (.ref ['b']) (.ref ['c']))))).map render =
     some (render (.bin .sub (.bin .sub (.ref ['a']) (.ref ['b'])) (.ref ['c']))) ∧
     render (.bin .sub (.bin .sub (.ref ['a']) (.ref ['b'])) (.ref ['c'])) = "a - b - c".toList := by decide
+
+/-! ### the whole language -/
+section Full
+open GoflowModel.Expr.Full
+
+/-- **The printed tokens of a well-shaped tree parse back to it.** -/
+theorem print_parse (e : Expr) (h : Shape (.e e)) :
+    ∃ f0, ∀ f, f0 ≤ f → parseExpr f 0 (toks e) = some (e, []) := by
+  have hp : Full.Parses (.expr 0) (toks e ++ []) (.e e) [] :=
+    (complete_of_shape h).1 0 [] (.e e) [] (Nat.zero_le _) (by simp [Full.quiet]) (by intro q tl hh; cases hh)
+      (.stop (by simp [Full.stops]))
+  rw [List.append_nil] at hp
+  exact holds_of_parses hp
+
+/-- …embedded anywhere an expression can stand: before `)`, `,`, `]` or the end -/
+theorem print_parse_in_context (e : Expr) (h : Shape (.e e)) (rest : List Tok) (hq : Full.quiet rest)
+    (hs : ∀ q tl, rest ≠ .op q :: tl) :
+    ∃ f0, ∀ f, f0 ≤ f → parseExpr f 0 (toks e ++ rest) = some (e, rest) := by
+  have hp : Full.Parses (.expr 0) (toks e ++ rest) (.e e) rest :=
+    (complete_of_shape h).1 0 rest (.e e) rest (Nat.zero_le _) hq (fun q tl hh => absurd hh (hs q tl))
+      (.stop (stops_of 0 rest (fun q tl hh => absurd hh (hs q tl))))
+  exact holds_of_parses hp
+
+/-- **Every parseable expression**: printing its tree and parsing the printed tokens yields the
+same tree, names lowered. -/
+theorem parse_print_parse (ts : List Tok) (e : Expr) (h : parse ts = some e) :
+    ∃ f0, ∀ f, f0 ≤ f → parseExpr f 0 (toks e) = some (norm e, []) := by
+  have hs : ShapeE e := by
+    unfold parse at h
+    split at h
+    · cases h
+    · split at h
+      · rename_i e' heq
+        cases h
+        exact ((parser_shape Tables.isPrint_newline _).1 0 ts e [] heq (by omega)).1
+      · cases h
+  have := print_parse (norm e) hs
+  rw [toks_norm] at this
+  exact this
+
+/-- printing is a fixed point after one round -/
+theorem print_fixed_point (ts : List Tok) (e : Expr) (_ : parse ts = some e) : toks (norm e) = toks e :=
+  toks_norm e
+
+/-- the re-parsed tree evaluates to the same value, in every context and value domain -/
+theorem reparse_same_value {V : Type} (S : Sem V) (ρ : Env V) (e : Expr) : eval S ρ (norm e) = eval S ρ e :=
+  eval_norm S ρ e
+
+/-- non-vacuity: the parser accepts `F(a.b[1], (x) => -x ^ 2).0 & 3.50`, and prints it so -/
+example :
+    (parse [.name ['F'], .lparen, .name ['a'], .dot, .name ['b'], .lbrack, .int ['1'], .rbrack, .comma,
+            .lparen, .name ['x'], .rparen, .arrow, .op .sub, .name ['x'], .op .exp, .int ['2'],
+            .rparen, .dot, .int ['0'], .op .amp, .dec ['3', '.', '5', '0']]).map render =
+      some "f(a.b[1], (x) => -x ^ 2).0 & 3.5".toList := by
+  decide
+
+end Full
 
 /-! ### renaming -/
 
